@@ -1,10 +1,214 @@
 package rules
 
 import (
+	"fmt"
+	"go/types"
+	"strings"
+
+	"golang.org/x/tools/go/ssa"
+
 	"lalverif/internal/model"
 	"lalverif/internal/report"
 )
 
+// c14r6: path confinement of peer-chosen names. lal has no central validation of stream names
+// or request paths; the property needs (a) the HLS file server to read only below its root,
+// (b) the HLS muxer (one directory per stream name) to write only below its root, (c) the
+// recordings (one file per stream name) to stay in their directory.
 func c14r6(p *model.Prog, r *report.Result) {
-	r.NotDecided = append(r.NotDecided, "path confinement of client-chosen stream names / request paths (R6 taint rule not built yet)")
+	r.Rule("C14.R6", "path confinement: (read) every ReadFile of hls.ServerHandler is dominated by the 'inside' edge of a confinement test (a bool function built on filepath.Rel) applied to the same path; (write) every hls.NewMuxer call is dominated by the 'inside' edge of a confinement test whose path argument derives from the same stream name, and NewMuxer is not called from anywhere else; (record) the file a recording writer opens is filepath.Join(<configured directory>, Sprintf(F, stream name, ...)) with a format F that adds literal characters to the name and contains no path separator, so the element can be neither '..' nor a sub-path")
+	// confinement tests: lal functions returning bool that (depth <= 2) call path/filepath.Rel
+	confMemo := map[*ssa.Function]bool{}
+	var isConf func(fn *ssa.Function, d int) bool
+	isConf = func(fn *ssa.Function, d int) bool {
+		if fn == nil || fn.Blocks == nil {
+			return false
+		}
+		if v, ok := confMemo[fn]; ok {
+			return v
+		}
+		res := false
+		if rs := fn.Signature.Results(); rs.Len() == 1 {
+			if b, ok := rs.At(0).Type().Underlying().(*types.Basic); ok && b.Kind() == types.Bool {
+				model.EachInstr(fn, func(in ssa.Instruction) {
+					c, ok := in.(ssa.CallInstruction)
+					if !ok {
+						return
+					}
+					if o := model.CalleeObj(c.Common()); o != nil && o.Pkg() != nil && o.Pkg().Path() == "path/filepath" && o.Name() == "Rel" {
+						res = true
+					}
+					if d < 2 {
+						if ce := c.Common().StaticCallee(); ce != nil && model.IsLal(ce) && isConf(ce, d+1) {
+							res = true
+						}
+					}
+				})
+			}
+		}
+		confMemo[fn] = res
+		return res
+	}
+	// confinedBy: in is dominated by the true edge of conf(..., x, ...) where x satisfies same()
+	confinedBy := func(in ssa.Instruction, same func(arg ssa.Value) bool) bool {
+		return model.GuardedBy(in, func(c ssa.Value, pol bool) bool {
+			c, pol = model.StripNot(c, pol)
+			call, ok := c.(*ssa.Call)
+			if !ok || !pol {
+				return false
+			}
+			if !isConf(call.Call.StaticCallee(), 0) {
+				return false
+			}
+			for _, a := range call.Call.Args {
+				if same(a) {
+					return true
+				}
+			}
+			return false
+		})
+	}
+
+	// ---- read side
+	nRead := 0
+	for _, fn := range lalFuncsIn(p, "pkg/hls") {
+		if recvName(topFn(fn)) != "ServerHandler" {
+			continue
+		}
+		for _, ci := range model.AllCalls(fn) {
+			o := model.CalleeObj(ci.Common())
+			if o == nil || o.Name() != "ReadFile" {
+				continue
+			}
+			nRead++
+			args := ci.Common().Args
+			path := args[len(args)-1]
+			ok := confinedBy(ci, func(a ssa.Value) bool { return a == path || sameLoad(a, path, 0) })
+			r.Check(ok, "C14.R6", fkey(fn, "read", "inside-root"), p.InstrPos(ci), "file read only behind the confinement test of the same path", "the HLS file server reads a path built from the request without testing that it lies below the configured root: a request path with '..' that the HTTP mux does not clean (CONNECT), or a segment name like '..-1-2.ts', returns files outside the root")
+		}
+	}
+	if nRead < 1 {
+		r.Bad("C14.R6", "read|floor", "", "no ReadFile call found in hls.ServerHandler")
+	}
+
+	// ---- write side: NewMuxer
+	newMuxer := p.Func("pkg/hls", "NewMuxer")
+	nNew := 0
+	for _, ed := range p.Callers(newMuxer) {
+		fn := ed.Caller.Func
+		if !model.IsLal(fn) || ed.Site == nil {
+			continue
+		}
+		if pk := model.FnPkg(fn); pk == nil || !strings.Contains(pk.Path(), "/pkg/") {
+			continue // the demo programs under app/ take the stream name from their own command line
+		}
+		nNew++
+		name := ed.Site.Common().Args[0]
+		ok := confinedBy(ed.Site, func(a ssa.Value) bool {
+			return model.DependsOn(a, func(v ssa.Value) bool { return v == name || sameLoad(v, name, 0) })
+		})
+		r.Check(ok, "C14.R6", fkey(fn, "write", "muxer-dir-inside-root"), p.InstrPos(ed.Site), "muxer created only for a stream name whose directory lies below the root", "an HLS muxer is created for a peer-chosen stream name without testing that <root>/<name> lies below the root: a stream named '..' makes lal write playlists and segments into the parent of the HLS directory (and the end-of-stream cleanup removes that parent)")
+	}
+	if nNew < 1 {
+		r.Bad("C14.R6", "write|floor", "", "no caller of hls.NewMuxer found")
+	}
+
+	// ---- recordings
+	type rec struct{ pkg, typ, method string }
+	nRec := 0
+	for _, w := range []rec{{"pkg/httpflv", "FlvFileWriter", "Open"}, {"pkg/mpegts", "FileWriter", "Create"}} {
+		m := p.Method(w.pkg, w.typ, w.method)
+		for _, ed := range p.Callers(m) {
+			fn := ed.Caller.Func
+			if !model.IsLal(fn) || ed.Site == nil || !strings.HasSuffix(model.FnPkg(fn).Path(), "/pkg/logic") {
+				continue
+			}
+			nRec++
+			args := ed.Site.Common().Args
+			path := args[len(args)-1]
+			why := recordPathShape(path)
+			r.Check(why == "", "C14.R6", fkey(fn, "record", w.typ), p.InstrPos(ed.Site), "Join(<configured dir>, Sprintf(<format with literal characters, no separator>, name, ...))", "the recording file name is not of the confined shape ("+why+"): a peer-chosen stream name can select a file outside the recording directory")
+		}
+	}
+	if nRec < 2 {
+		r.Bad("C14.R6", "record|floor", "", fmt.Sprintf("only %d recording open sites found in pkg/logic", nRec))
+	}
+}
+
+// recordPathShape returns "" when v is filepath.Join(dir, fmt.Sprintf(F, ...)) with F free of
+// separators and containing literal characters besides its verbs.
+func recordPathShape(v ssa.Value) string {
+	join, ok := v.(*ssa.Call)
+	if !ok {
+		return "not a filepath.Join result"
+	}
+	o := model.CalleeObj(join.Common())
+	if o == nil || o.Pkg() == nil || o.Pkg().Path() != "path/filepath" || o.Name() != "Join" {
+		return "not a filepath.Join result"
+	}
+	elems := variadicElems(join.Call.Args[0])
+	if len(elems) != 2 {
+		return fmt.Sprintf("Join of %d elements", len(elems))
+	}
+	if model.LoadedField(elems[0]) == nil {
+		return "the directory is not a configuration field"
+	}
+	sp, isC := elems[1].(*ssa.Call)
+	if !isC {
+		return "the file name is not a Sprintf result"
+	}
+	so := model.CalleeObj(sp.Common())
+	if so == nil || so.Pkg() == nil || so.Pkg().Path() != "fmt" || so.Name() != "Sprintf" {
+		return "the file name is not a Sprintf result"
+	}
+	f, isS := model.ConstString(sp.Call.Args[0])
+	if !isS {
+		return "non-constant format"
+	}
+	if strings.ContainsAny(f, "/\\") {
+		return "the format contains a path separator"
+	}
+	lit := f
+	for _, verb := range []string{"%s", "%d", "%v"} {
+		lit = strings.ReplaceAll(lit, verb, "")
+	}
+	if strings.Contains(lit, "%") || strings.Trim(lit, ".") == "" {
+		return "the format adds no literal characters to the name"
+	}
+	return ""
+}
+
+// variadicElems returns the values stored into the backing array of a variadic argument.
+func variadicElems(v ssa.Value) []ssa.Value {
+	sl, ok := v.(*ssa.Slice)
+	if !ok {
+		return nil
+	}
+	arr, isA := sl.X.(*ssa.Alloc)
+	if !isA {
+		return nil
+	}
+	byIdx := map[int64]ssa.Value{}
+	for _, ref := range *arr.Referrers() {
+		ia, isIA := ref.(*ssa.IndexAddr)
+		if !isIA {
+			continue
+		}
+		k, isK := model.ConstInt(ia.Index)
+		if !isK {
+			continue
+		}
+		for _, r2 := range *ia.Referrers() {
+			if st, isSt := r2.(*ssa.Store); isSt {
+				byIdx[k] = st.Val
+			}
+		}
+	}
+	out := make([]ssa.Value, len(byIdx))
+	for k, v := range byIdx {
+		if int(k) < len(out) {
+			out[k] = v
+		}
+	}
+	return out
 }
